@@ -52,6 +52,7 @@ INF = math.inf
 
 
 def prepare(tier):
+    warnings.filterwarnings("ignore", category=SyntaxWarning)      # docstring escapes in pyLife modules, printed per worker otherwise
     build_ext.ensure()
 
 
@@ -334,14 +335,15 @@ def _families(tier):
     if tier == "quick":
         return [("A", CURVE_A, LEVELS_A_Q, [((0, 1, 2), (1, 2)), ((0, 1), (3,))]),
                 ("X", CURVE_X, LEVELS_X_Q, [((0, 1), (1, 2)), ((2,), (1,))])]
-    return [("A", CURVE_A, LEVELS_A_T, [((0, 1, 2), (1, 2, 3))]),
-            ("X", CURVE_X, LEVELS_X_T, [((0, 1, 2), (1, 2)), ((0, 1), (3,))])]
+    return [("A", CURVE_A, LEVELS_A_T, [((0, 1, 2), (1, 2)), ((0, 1), (3,))]),
+            ("X", CURVE_X, LEVELS_X_T, [((0, 1, 2), (1, 2)), ((0,), (3,))])]
 
 
 def _batch_families(tier):
     if tier == "quick":
         return [("A", CURVE_A, LEVELS_A_Q, [((0, 1), (1, 2))]), ("X", CURVE_X, LEVELS_X_Q, [((0, 1), (1,))])]
-    return [("A", CURVE_A, LEVELS_A_T, [((0, 1, 2), (1, 2))]), ("X", CURVE_X, LEVELS_X_T, [((0, 1, 2), (1, 2))])]
+    # the vectorised path is ~25 x cheaper per table: it carries the full n1 <= 2, n2 <= 3 space of family A
+    return [("A", CURVE_A, LEVELS_A_T, [((0, 1, 2), (1, 2, 3))]), ("X", CURVE_X, LEVELS_X_T, [((0, 1, 2), (1, 2)), ((0, 1), (3,))])]
 
 
 def _tables(levels, n1, n2):
@@ -583,6 +585,7 @@ def run_shard(shard):
     acc = Acc()
     kind = shard[0]
     if kind == "curves":
+        acc.sample({"part": "curves", "first_case": shard[1][0], "lattice": "N in {1, 10, 999, 1e3(1-+1e-9), 1e3, 1001, N_D/2, sqrt(1e3 N_D), N_D(1-1e-9)}"})
         for case in shard[1]:
             acc.cases += 1
             acc.nontrivial += 1
@@ -640,9 +643,13 @@ def run_shard(shard):
                     acc.nontrivial += 1
             for o in outcomes:
                 acc.outcomes.add(hash(o))
-            if classes and classes[0] == "half-hysteresis" and len(r1) == 1 and len(r2) == 2 and len(acc.samples) < 1:
+            if len(acc.samples) < 1 and len(r1) >= 1 and any(not c for _, c in list(r1) + list(r2)):
                 curve, levels = _fam(tier, fam)
-                acc.sample({"family": fam, "pass1": _rows(levels, r1), "pass2": _rows(levels, r2), "literal(n_times, n_cycles)": outcomes[0]})
+                rows1, rows2 = _rows(levels, r1), _rows(levels, r2)
+                e_nt, e_nc, info = _expected(fam, curve, rows1, rows2)
+                if not info["early"] and math.isfinite(e_nt):     # sample is built from the input and the reference only
+                    acc.sample({"family": fam, "pass1(P_RAM, closed)": rows1, "pass2(P_RAM, closed)": rows2,
+                                "literal_loop(n_times, n_cycles)": [e_nt, e_nc]})
             for key, detail in viol:
                 acc.violation(key, {"part": "acc", "tier": tier, "family": fam, "r1": r1, "r2": r2}, detail)
     elif kind == "accbatch":
